@@ -428,9 +428,10 @@ fn parse_time(dict: &Dict) -> Result<HVal, JsonErr> {
 
 fn parse_datetime(dict: &Dict) -> Result<HVal, JsonErr> {
     match dict.get_str("val") {
-        Some(val) => match DateTime::parse_from_rfc3339(&val.value) {
-            Ok(date) => match dict.get_str("tz") {
-                Some(tz) => {
+        Some(val) => match dict.get_str("tz") {
+            // The zone is given by name, only the instant is needed from 'val'
+            Some(tz) => match chrono::DateTime::parse_from_rfc3339(&val.value) {
+                Ok(date) => {
                     let datetime =
                         make_date_time_with_tz(&date.with_timezone(&Utc.fix()), &tz.value);
                     match datetime {
@@ -438,9 +439,12 @@ fn parse_datetime(dict: &Dict) -> Result<HVal, JsonErr> {
                         Err(err) => Err(JsonErr::custom(err)),
                     }
                 }
-                None => Ok(HVal::make_datetime(date)),
+                Err(err) => Err(JsonErr::custom(format!("Invalid datetime 'val', {err}"))),
             },
-            Err(err) => Err(JsonErr::custom(format!("Invalid datetime 'val', {err}"))),
+            None => match DateTime::parse_from_rfc3339(&val.value) {
+                Ok(date) => Ok(HVal::make_datetime(date)),
+                Err(err) => Err(JsonErr::custom(format!("Invalid datetime 'val', {err}"))),
+            },
         },
         None => Err(JsonErr::custom("Missing or invalid 'val'")),
     }
